@@ -52,6 +52,13 @@ Step(e) ==
          /\ Check(~Has(e, "exc") /\ Has(e, "d") /\ e.d = DurationOfTd(e.td), "from_timedelta_exact")
          /\ Check(Has(e, "back") /\ e.back = e.td, "timedelta_round_trip")
     [] e.op = "to_td" -> Check(~Has(e, "exc") /\ Has(e, "res") /\ e.res = TdOfDuration(e.d), "to_timedelta_truncates_toward_zero")
+    [] e.op = "td_off" ->     \* timedelta <<days, seconds, microseconds>> (normalised as the stdlib does) -> Offset
+         LET secs == e.td[1] * 86400 + e.td[2]          \* floor seconds; the value is secs + micro / 10^6
+             micro == e.td[3]
+             inRange == secs >= -64800 /\ (secs < 64800 \/ (secs = 64800 /\ micro = 0))
+             trunc == IF secs >= 0 \/ micro = 0 THEN secs ELSE secs + 1
+         IN  IF inRange THEN Check(~Has(e, "exc") /\ Has(e, "res") /\ e.res = trunc, "offset_from_timedelta_truncates_toward_zero")
+             ELSE Check(Has(e, "exc"), "offset_from_timedelta_outside_18h_must_raise")
     [] e.op = "off_td" -> Check(~Has(e, "exc") /\ Has(e, "back") /\ e.td = <<e.s \div 86400, e.s % 86400, 0>> /\ e.back = e.s, "offset_timedelta_round_trip")
 
 Init == l = 1
